@@ -511,4 +511,43 @@ def search(ctx, budget):
         r = run_cases(batch, {'monitor_exe': ctx.get('monitor_exe'), 'model_exe': None, 'tier': ctx.get('tier')})
         n += r['evaluations']
         viol.extend(v for v in r['violations'] if v['signature'] not in kf)
+    if not viol:
+        v, m = _search_bare_cr()
+        viol.extend(x for x in v if x['signature'] not in kf)
+        n += m
     return {'violations': viol, 'evaluations': n}
+
+
+# Sources with bare-CR line ends are outside the reference grammar (Spec/LuaLex.v header), so the monitor makes no claim
+# on them.  This oracle is used ONLY by the failing-input search, i.e. after a proof obligation or a pin has already
+# broken: picotool's own lexer reads a lone CR as a line end (as Lua 5.2 does), so the code tokens and comments of the
+# input, read by that lexer, must be those of the luafmt output read by the same lexer (round s11, DESIGN 13.15).
+_BARE_CR_PROGRAMS = [
+    b'x = 1 -- set x\ny = 2\nif (x) y = 3\nz = 4\n',
+    b'-- title\n-- author\nfunction f(a)\n  return a -- r\nend\n',
+    b'a=1\n\n\nb=2 --[[ c ]] c=3\nif (a) b=1 else b=2\nprint(a)\n',
+]
+
+
+def _search_bare_cr():
+    viol, n = [], 0
+    for prog in _BARE_CR_PROGRAMS:
+        for src in (prog.replace(b'\n', b'\r'), prog.replace(b'\n', b'\r', 1), prog.rstrip(b'\n').replace(b'\n', b'\r')):
+            c = {'src': lib.hx(src), 'widths': [2], 'kind': 'corpus'}
+            try:
+                o = run_impl(c)
+            except Exception:  # noqa
+                continue
+            if 'enc' not in o:
+                continue
+            code = lambda e: [t for t in (e.split(',') if e and e != '-' else []) if t[0] not in 'SN']  # noqa
+            for r in o.get('writes', []):
+                n += 1
+                if r.get('res') == 'OK' and r.get('out_enc') is not None and code(r['out_enc']) != code(o['enc']):
+                    viol.append({'case': c, 'summary': {'src': repr(src), 'out': repr(lib.unhx(r['text'])) if 'text' in r else None},
+                                 'signature': 'C09/impl-tokens-differ/bare-cr',
+                                 'what': 'C09/impl-tokens-differ/bare-cr: luafmt of %r is %r; read by picotool\'s own lexer the code '
+                                         'tokens / comments differ' % (src, lib.unhx(r['text']) if 'text' in r else None),
+                                 'observed': [(r.get('w'), r['res'], 'tokens differ')]})
+                    return viol, n
+    return viol, n
